@@ -242,4 +242,36 @@ theorem every_weighted_subnet_used (cfg : Cfg) (req : Req) (ext : Ext) (m : Nat)
         cases rp <;> simp [Heap.updR, Heap.upd, Heap.get]
     · cases h0
 
+/-! ### non-vacuity: concrete registrations that satisfy the hypotheses -/
+
+def cfg0 : Cfg :=
+  { authenticated := true, hasOverrides := false, enforce := true, pctMin := 10000, pctPrefix := 10000,
+    minSubnets := [⟨true, 167837952, 24, 1, 443, none⟩, ⟨true, 167903488, 24, 0, 80, none⟩, ⟨true, 167969024, 24, 2, 22, none⟩],
+    prefixSubnets := [], exclusions := [⟨true, 3325256704, 24, 0, 0, none⟩] }
+def req0 : Req :=
+  { hasPayload := true, secretLen := 32, v4 := true, v6 := true, transport := 1, disable := false, params := none,
+    source := 0, regAddr := none, forgedResp := some { v4 := some 101058054, port := some 70000 },
+    forgedBytes := "forged", forgedSig := "sig" }
+def ext0 : Ext :=
+  { sel4 := .ok 3405803783 true, sel6 := .ok "20010db8007700000000000000000001" true, transportKnown := true, parseOk := true,
+    ovSel := .nothing, unmarshal := some {}, port := some 443, pctDraw := 17, uNum := 1, uDen := 2, hostDraw := 77, sendOk := true }
+
+-- a successful, substituted, signed registration: u = 1/2 falls into the third subnet (weights 1, 0, 2)
+example : registerBidirectional cfg0 req0 ext0 4 (some "c6336407") =
+    .ok { v4 := some (167969024 + 77), v6 := some "20010db8007700000000000000000001", port := some 443 }
+        { source := 4, addr := some "c6336407",
+          resp := some { v4 := some (167969024 + 77), v6 := some "20010db8007700000000000000000001", port := some 443 },
+          signed := some { v4 := some (167969024 + 77), v6 := some "20010db8007700000000000000000001", port := some 443 } } := by
+  decide
+example : selected4 req0 ext0 = some 3405803783 ∧ excluded cfg0 (selected4 req0 ext0) = false := by decide
+example : ∀ s ∈ cfg0.minSubnets ++ cfg0.prefixSubnets, s.wf := by
+  intro s hs
+  simp [cfg0] at hs
+  rcases hs with rfl | rfl | rfl <;> intro _ <;> simp [Subnet.hosts]
+-- an excluded phantom (198.51.100.7 in 198.51.100.0/24) keeps its address
+example : (match registerBidirectional cfg0 req0 { ext0 with sel4 := .ok 3325256711 true } 4 none with
+    | .ok c _ => c.v4 | _ => none) = some 3325256711 := by decide
+-- the weighted choice over (1, 0, 2): thirds of [0, 1)
+example : choose [1, 0, 2] 0 3 = some 0 ∧ choose [1, 0, 2] 1 3 = some 2 ∧ choose [1, 0, 2] 2 3 = some 2 := by decide
+
 end CJ.Props.C12
